@@ -269,8 +269,114 @@ def attach_sources(cases, reqs, sources):
         c["idx"] = s.get("idx", [])
 
 
-def replay_many(cases):
-    return pmap(X.replay, cases)
+def _worker(conn, work):
+    """long-lived replay worker: receives (key, chunk) over its own pipe, writes the records to a file"""
+    while True:
+        task = conn.recv()
+        if task is None:
+            return
+        key, chunk = task
+        out = [X.replay(c) for c in chunk]
+        path = os.path.join(work, "replay_%s.json" % key)
+        with open(path + ".tmp", "w") as fh:
+            json.dump(out, fh)
+        os.replace(path + ".tmp", path)
+        conn.send(key)
+
+
+def replay_many(cases, work, limit=600):
+    """Replay in forked, long-lived worker processes (each has its own pipe; no shared queue).  Unlike a plain
+    pool this survives a worker that DIES or hangs (a seeded change that makes compiled code index out of range
+    corrupts the heap): its chunk is replayed again case by case, and the history that kills its worker gets a
+    record saying so (clause Raises) instead of hanging or crashing the check."""
+    import multiprocessing as mp
+    import time
+
+    from harness import ux as hux
+
+    hux.import_ux()
+    nproc = int(os.environ.get("VERIF_NPROC", "0")) or min(16, os.cpu_count() or 4)
+    ctx_mp = mp.get_context("fork")
+
+    def run_jobs(todo):
+        """todo: [(key, chunk)] -> {key: list of record lists | None (worker died / timed out)}"""
+        done, queue, workers = {}, list(todo), []
+
+        def spawn():
+            parent, child = ctx_mp.Pipe()
+            p = ctx_mp.Process(target=_worker, args=(child, work))
+            p.start()
+            child.close()
+            return {"p": p, "conn": parent, "key": None, "t0": 0.0}
+
+        def assign(w):
+            if queue:
+                key, chunk = queue.pop(0)
+                w["key"], w["t0"] = key, time.time()
+                w["conn"].send((key, chunk))
+            else:
+                w["key"] = None
+
+        workers = [spawn() for _ in range(min(nproc, len(queue)))]
+        for w in workers:
+            assign(w)
+        while any(w["key"] is not None for w in workers):
+            time.sleep(0.01)
+            for i, w in enumerate(workers):
+                if w["key"] is None:
+                    continue
+                finished = False
+                try:
+                    if w["conn"].poll():
+                        key = w["conn"].recv()
+                        path = os.path.join(work, "replay_%s.json" % key)
+                        with open(path) as fh:
+                            done[key] = json.load(fh)
+                        os.remove(path)
+                        finished = True
+                except (EOFError, OSError):
+                    pass
+                if finished:
+                    assign(w)
+                    continue
+                dead = not w["p"].is_alive()
+                if not dead and time.time() - w["t0"] > limit:
+                    w["p"].kill()
+                    dead = True
+                if dead:
+                    w["p"].join()
+                    done[w["key"]] = None
+                    workers[i] = spawn()
+                    assign(workers[i])
+        for w in workers:
+            try:
+                w["conn"].send(None)
+            except (OSError, BrokenPipeError):
+                pass
+            w["p"].join(5)
+            if w["p"].is_alive():
+                w["p"].kill()
+        return done
+
+    size = max(1, min(150, len(cases) // (nproc * 6) or 1))
+    jobs = [("c%d" % k, cases[i : i + size]) for k, i in enumerate(range(0, len(cases), size))]
+    first = run_jobs(jobs)
+    results = {k: v for k, v in first.items() if v is not None}
+    retry = [("%s_%d" % (key, j), [c]) for key, chunk in jobs if first[key] is None for j, c in enumerate(chunk)]
+    if retry:
+        second = run_jobs(retry)
+        for key, chunk in jobs:
+            if first[key] is not None:
+                continue
+            out = []
+            for j, c in enumerate(chunk):
+                r = second["%s_%d" % (key, j)]
+                if r is None:
+                    r = [[{"id": c["id"], "order": [], "first": {}, "error_kind": "observe",
+                           "error": "the worker process died (or hung) while replaying this history"}]]
+                out += r
+            results[key] = out
+    return [rs for key, _ in jobs for rs in results[key]]
 
 
 # ----------------------------------------------------------------------------- verdicts
@@ -389,7 +495,7 @@ def run_histories(ctx, prop, cases, reqs):
         raise Machinery("history families are vacuous for: %s" % ", ".join(empty))
     for c in cases:
         c["workdir"] = ctx.work
-    recs = [r for rs in replay_many(cases) for r in rs]
+    recs = [r for rs in replay_many(cases, ctx.work) for r in rs]
     ctx.note("derived_grids_without_faces_not_judged", sum(1 for r in recs if "outside" in r))
     recs = [r for r in recs if "outside" not in r]
     keep_flags(recs, prop)
